@@ -14,6 +14,12 @@ TRUSTED_BASE = {
 }
 
 PROPS = {
+    "C15": {
+        "tests": ["TestC15"],
+        "design_ref": "DESIGN.md §3.15",
+        "level_text": "TODO",
+        "level_note": "TODO",
+    },
     "C06": {
         "tests": ["TestC06"],
         "design_ref": "DESIGN.md §3.6",
